@@ -228,7 +228,7 @@ static void do_ctr(void)
         /* a fresh CTR<T> object: all-zero IV is NOT the Arduino default (the counter is
            uninitialised until setIV), so the scenario always sets the counter */
         s->ctrlive = 1; s->ctrsel = 0; live_objs++;
-        jint("fail", 0); jint("ret", 1); jstr("be", "gen"); jint("ctxnull", 0);
+        jint("fail", 0); jint("ret", 1); jint("failed", 0); jstr("be", "gen"); jint("ctxnull", 0);
         jint("na", 1); jint("nf", 0); jint("nz", 0); jint("badfree", 0); jint("lv", live_objs); jint("stray", 0);
         jend();
         return;
